@@ -1,5 +1,7 @@
 //! harness <check> --tier quick|thorough --seed N      -> one JSON object on stdout
 //! harness replay <check> <args..>                      -> re-executes one case on the real code
+mod c04;
+mod c04bash;
 mod c06;
 mod c07bash;
 mod cpipe;
@@ -89,6 +91,7 @@ fn main() {
             "pipeline" | "pipeline_fuzz" => cpipe::replay(&args[3..]),
             "c06_display" => c06::replay_display(&args[3..]),
             "c07_bash" => c07bash::replay(&args[3..]),
+            "c04_tables" => c04::replay(&args[3..]),
             "c11_choice" | "c15_warnings" | "c08_classify" => csem::replay(&args[2], &args[3..]),
             "c06_spans" => c06::replay_spans(&args[3..]),
             "c06_cli" => c06::replay_cli(&args[3..]),
@@ -123,6 +126,7 @@ fn main() {
         "pipeline_fuzz" => cpipe::run_fuzz(thorough, seed),
         "c06_display" => c06::display(thorough),
         "c07_bash" => c07bash::run(thorough),
+        "c04_tables" => c04::run(thorough, seed),
         "c11_choice" => csem::c11(thorough),
         "c15_warnings" => csem::c15(thorough, seed),
         "c08_classify" => csem::c08(thorough),
